@@ -69,7 +69,7 @@ chk("C13","exhaustive input enumeration (E6): full Cartesian boundary grid G^4 x
     "Every (wtime, btime, winc, binc) in G^4 (|G| = 12 quick / 22 thorough) for either side, every movetime alone / with depth / with infinite / with every clock: the budget handed to the timer equals `info time`, is <= the mover's clock resp. the movetime, no go kills the engine (checked and release-semantics builds), monotone in the clock; timed scripts under all interleavings: after the timer fired the search enters at most one more node. Partial and permuted parameter lists (clock without increments, the mover's clock alone, movestogo); the grid on a family of 12 positions (in check, single reply, mate in one, castling/en passant available, middlegame). Unimplemented go sub-commands (searchmoves with a move list, ponder, nodes, mate, movestogo) before, between and after the clock parameters.",
     E5+"; wall-clock latency not modelled", "5/C13", "E5+E6")
 chk("C14","stateless preemption-bounded schedule exploration (CHESS-style, E5) of the real UCI threads: all words of length <= 3 (4) over a 9-command alphabet, eager and reactive GUI, all interleavings with <= 2 (3) deviations",
-    "1600 scripts (quick) x every schedule within the deviation bound (~190k executions): no panic, no deadlock, every isready answered, bestmove count never exceeds accepted go, every due go answered exactly once with a move legal in the position it was asked about, a position/go sent after all earlier go were answered is never refused, no search left running with nothing to stop it; failing schedules are replayed twice for determinism. Command-grammar sessions (all words of length <= 2 over 107 command-line shapes) at native speed; 11 real-time sessions against the real binary whose only timing-dependent verdict is 'no answer within 90 s'; oracle clause for searches ended by something other than their limit or a command. Sessions with shuffle game records of every length 0-14; sleeping-timer cost model for the scripts about timers that outlive their search.",
+    "1600 scripts (quick) x every schedule within the deviation bound (~190k executions): no panic, no deadlock, every isready answered, bestmove count never exceeds accepted go, every due go answered exactly once with a move legal in the position it was asked about, a position/go sent after all earlier go were answered is never refused, no search left running with nothing to stop it; failing schedules are replayed twice for determinism. Command-grammar sessions (all words of length <= 2 over 107 command-line shapes) at native speed; 14 real-time sessions against the real binary whose only timing-dependent verdict is 'no answer within 90 s'; oracle clause for searches ended by something other than their limit or a command. Sessions with shuffle game records of every length 0-14; sleeping-timer cost model for the scripts about timers that outlive their search.",
     E5, "5/C14", "E5")
 chk("C15","checked build as monitor (unsafe-precondition / debug_assert / arrayvec capacity / bounds checks live in every exploration) plus exhaustive enumeration of the capacity corners: mobility catalogue and its complete 1-edit neighbourhood, all game lengths around the interface limit x listed search depths, self-play to its end",
     "Every member of the mobility catalogue (218-move record, 9-queen positions, super-legal border-queen family) and of its 1-edit neighbourhood is generated in both modes for both sides; games of 1,2,397..400 plies through the real `position` command followed by unlimited and depth 1/34/64/255 searches; the real self-play loop with 1/50(/1000) polls per move until it ends. Capacity sweep (tail structures x every realised pseudo-legal count 236..300) puts the buffer boundary inside the batches of promoting pawns; the real binary's `auto` self-play must exit 0. Forced-line roots (both sides have exactly one legal move for ever) after games of up to 399 plies; castling rights the board does not support.",
